@@ -51,6 +51,26 @@ def groups(n, seed):
                 {"prob": ps, "params": pk, "run": "C", "algkey": 2, "twin": "C10"},
                 {"prob": ps, "params": pk, "run": "D", "algkey": 2, "twin": "C10", "same_solver_as": "A"}]
         gs.append({"tag": "C10", "runs": runs})
+    # process-global state: the reference solve R runs BEFORE a polluting solve A (a failed derivative check, a single-precision
+    # solve, a solve at DEBUG level that raises midway), its twin B after it -- all on fresh solvers
+    from pygradflow.params import DerivCheck, Precision
+    for i in range(max(6, n // 6)):
+        ps = ("logdomain", int(rng.integers(0, 2 ** 31)), int(rng.integers(1, 4)), bool(i % 2)) if i % 3 != 2 else family_spec(i, rng)
+        pk = gen.random_params(rng, iteration_limit=18, lamb_init=float(10.0 ** rng.uniform(-3, -1)))
+        kind = i % 3
+        other = ("convex_qp", int(rng.integers(0, 2 ** 31)), 3, 1, {})
+        if kind == 0:
+            pol = {"prob": other, "params": dict(deriv_check=DerivCheck.CheckAll, iteration_limit=5, display_interval=1e9),
+                   "fault": ("always", ["obj_grad", "cons_jac", "lag_hess"][(i // 3) % 3], "wrong")}
+        elif kind == 1:
+            pol = {"prob": ("repo", "hs71"), "params": dict(precision=Precision.Single, iteration_limit=8, display_interval=1e9)}
+        else:
+            pol = {"prob": other, "params": dict(iteration_limit=12, display_interval=None), "loglevel": "DEBUG",
+                   "fault": ("transient", None, int(rng.integers(5, 40)), "nan")}
+        gs.append({"tag": "C10.global", "runs": [
+            {"prob": ps, "params": pk, "run": "A", "algkey": 2, "twin": "C10"},
+            dict(pol, run="B", algkey=1, twin="none"),
+            {"prob": ps, "params": pk, "run": "C", "algkey": 2, "twin": "C10"}]})
     return gs
 
 
